@@ -44,6 +44,9 @@ ASSUMPTIONS = [
 KINDS = ("supervised", "semi", "knn", "unsup", "unsup_prop")
 
 
+EXPECTED_PROBES = ['batch_longer_than_training_set', 'duplicates_inside_one_batch', 'model_', 'position_ge1_is_valid_training_index', 'query_equals_training_sample', 'query_raises_consistently', 'successful_predict_after_abort']
+
+
 def arms(tier):
     if tier == "thorough":
         return [("fly", 900_000), ("pre", 300_000), ("abort", 300_000)]
@@ -148,9 +151,16 @@ def pool_index(case, q):
     return len(case["X"]) + q
 
 
+def tarr(case, rows):
+    """Feature rows in the world's dtype (float64 unless the case says otherwise)."""
+    a = arr(rows)
+    dt = case.get("dtype", "float64")
+    return a if dt == "float64" else a.astype(dt)
+
+
 def build_model(case):
     kind, metric = case["kind"], case["metric"]
-    X, Y = arr(case["X"]), iarr(case["Y"])
+    X, Y = tarr(case, case["X"]), iarr(case["Y"])
     n = len(case["X"])
     if n < 2 or (kind != "unsup" and len(set(case["Y"])) < 2) or sorted(set(case["Y"])) != list(range(max(case["Y"]) + 1)):
         raise OutOfDomain()
@@ -183,13 +193,13 @@ def build_model(case):
     elif kind == "semi":
         if case["pre"]:
             raise OutOfDomain()  # unlabeled rows would need indices n..n+u-1 in D: covered by C10
-        XU = arr(case["XU"]).reshape(len(case["XU"]), X.shape[1])
+        XU = tarr(case, case["XU"]).reshape(len(case["XU"]), X.shape[1])
         m.fit(X, Y, XU)
     elif kind == "knn":
         vi = [v % n for v in case["val_idx"]]
         if set(case["Y"][v] for v in vi) != set(case["Y"]):
             raise OutOfDomain()
-        XV, YV = arr([case["X"][v] for v in vi]), iarr([case["Y"][v] for v in vi])
+        XV, YV = tarr(case, [case["X"][v] for v in vi]), iarr([case["Y"][v] for v in vi])
         m.fit(X, Y, XV, YV, I, iarr(vi) if case["pre"] else None)
     else:
         m.fit(X, Y, I)
@@ -199,7 +209,7 @@ def build_model(case):
 
 
 def do_predict(m, case, rows, batch):
-    Xq = arr([rows[q] for q in batch])
+    Xq = tarr(case, [rows[q] for q in batch])
     if case["pre"]:
         return m.predict(Xq, iarr([pool_index(case, q) for q in batch]))
     return m.predict(Xq)
